@@ -105,7 +105,41 @@ def evaluate(cases, rep, tier):
     for c, i, m in zip(sc, impl_s, model_s):
         if m.startswith("0") and not i.startswith("0"):
             counter.append({"input": c.impl_line()[:600], "expected": "panic (the paired borrow's guards refuse these indices)", "observed": i[:80], "oracle": "get_pair_mut guards"})
+    # the two-slices-of-one-vector helpers (util::get_both_ranges / get_both_indices, used by the dense matrix's row
+    # addition and row swap): a row index beyond the matrix must be REFUSED in every profile, never turned into an
+    # access outside the word vector (the helpers are safe code today; written with raw pointers they would only be
+    # guarded by debug assertions)
+    def enc_ops(ops):
+        out = []
+        for o in ops:
+            out += [len(o)] + o
+        return out
+    rm = C.Rng(C.get_seed()).fork("C12rows")
+    mis = []
+    for _ in range(24 if tier == "quick" else 200):
+        h, w = rm.choice([1, 2, 5, 64, 100]), rm.choice([1, 63, 64, 65, 130, 700])
+        far = h + rm.choice([0, 1, 2, 7, 64, 1000, 100000])
+        good = rm.below(h)
+        ops = [[1, rm.below(h), rm.below(w), 1] for _ in range(3)]
+        bad = rm.choice([[5, far, good, 0], [5, good, far, 0], [3, far, good], [3, good, far], [5, far, far + 1, 0]])
+        # DenseBinaryMatrix::new allocates h*(w+63)/64 words (more than h*ceil(w/64) in general): a row just beyond
+        # the matrix may still lie inside the allocation, where release builds do not check it (no memory is touched
+        # outside the vector, so C12 has nothing to say); only rows beyond the ALLOCATION must be refused
+        rw, alloc = (w + 63) // 64, h * (w + 63) // 64
+        if (max(bad[1], bad[2]) + 1) * rw <= alloc:
+            continue
+        mis.append(C.Case("bm_dense", [h, w, 0, len(ops) + 1] + enc_ops(ops + [bad]), tag="row_out_of_range"))
+    row_refused = 0
+    for prof in PROFILES:
+        for c, r in zip(mis, C.run_impl_crashsafe(mis, prof, chunk=6, timeout=300)):
+            if r.startswith("CRASH"):
+                counter.append({"input": c.impl_line(), "expected": "a refusal (panic) for a row index beyond the matrix", "observed": "the process died: " + r, "profile": prof, "oracle": "C12: row helpers stay inside the word vector"})
+            elif not r.rstrip().endswith(" 1 0"):
+                counter.append({"input": c.impl_line(), "expected": "a refusal (panic) for a row index beyond the matrix", "observed": "returned normally: " + r[-40:], "profile": prof, "oracle": "C12: row helpers stay inside the word vector"})
+            else:
+                row_refused += 1
     st = res["stats"]
+    st["out_of_range_row_calls_refused"] = row_refused
     st["evaluations"] += len(sc) * 4
     st["slab_replays"] = len(sc)
     st["guard_page_runs"] = len(gc)
